@@ -34,7 +34,8 @@ def _initial(v):
 @invariant(T_, ORD[OUTER], OUTER)
 def _outer(v, head):
   # A_old is the copy of the initial matrix made before the loop, or an accepted (PSD, within budget) iterate
-  return z3.Or(TH.is_initial(v.A_old.term), feasible_psd(v, v.A_old.term))
+  # (the projection tolerance is THE documented one per cent, whatever tol / max_iter say)
+  return z3.And(v.eps <= z3.RealVal('0.01'), z3.Or(TH.is_initial(v.A_old.term), feasible_psd(v, v.A_old.term)))
 
 
 @invariant(T_, ORD[INNER], INNER)
